@@ -68,6 +68,7 @@ def errStr : Err → String
   | .invalid => "invalid"
   | .rootexists => "rootexists"
   | .isdir => "isdir"
+  | .intoself => "intoself"
 
 def sortStrs (xs : List String) : List String := xs.mergeSort fun a b => !(b < a)
 
